@@ -284,3 +284,6 @@ def run(ctx, chk, tier):
     numeric(ctx, chk, tier)
     from . import c10
     c10.purity(ctx, chk, only=("Scores.auc",), strict=False)
+    # the four axis rates are the rates of the object's own confusion matrix (an fnr computed some other way is no longer 1 - tpr)
+    from . import c01
+    c01.rates_from_cm(ctx, chk, metrics=("tpr", "fnr", "tnr", "fpr"))
